@@ -146,6 +146,19 @@ def noserver_cases(rng, reps):
                         ops.append('op cpkt 0 1000005 %s %s' % (pipeline.rnd40(rng), hx(pkt)))
                     out.append(('noserver-%d' % k, cfg.conf_lines() + cfg.cfg_lines() + ops))
                     k += 1
+                    # the realm HAS servers but every one of them is failing (state 4): same answers, nothing forwarded
+                    cfg = _cfg1(rng)
+                    s2 = pipeline.Server(1, 'srvY'); cfg.servers.append(s2)
+                    r = cfg.realms[0]; r.srv = [0, 1]; r.acc = [1, 0]; r.msg = msg; r.accresp = accresp; r.acclog = acclog
+                    ops = ['op srvset 0 4 %d' % rng.choice([0, 3, 16]), 'op srvset 1 4 %d' % rng.choice([0, 3, 16])]
+                    for i, code in enumerate((1, 4)):
+                        pkt, _ = _req(rng, cfg, 0, code, ident=60 + i, uname=b'bob@example.com')
+                        ops.append('op cpkt 0 1000005 %s %s' % (pipeline.rnd40(rng), hx(pkt)))
+                    ops.append('op srvset %d %d 0' % (rng.randrange(2), rng.choice([0, 3])))   # one of them starts / reconnects: usable again
+                    pkt, _ = _req(rng, cfg, 0, 1, ident=70, uname=b'bob@example.com')
+                    ops.append('op cpkt 0 1000005 %s %s' % (pipeline.rnd40(rng), hx(pkt)))
+                    out.append(('allfailing-%d' % k, cfg.conf_lines() + cfg.cfg_lines() + ops))
+                    k += 1
     return out
 
 def reply_ttl_cases(rng, n):
